@@ -1,5 +1,25 @@
 """C15 — no_autodiff / mem-guard switches are scoped, exception-safe, value-preserving."""
+import json
+import os
+import subprocess
+
 from lib.checkdef import default_replay_cmd, run_property
+from lib.report import REPO, VENV_PY, VERIF
+
+_memo = {}
+
+
+def _replay(rep, r):
+    if "untracked" not in r.name:
+        return None, False, None
+    if "out" not in _memo:
+        env = dict(os.environ, PYTHONPATH=os.path.join(REPO, "src") + os.pathsep + VERIF)
+        p = subprocess.run([VENV_PY, os.path.join(VERIF, "runtime", "c15_replay.py")], capture_output=True, text=True, env=env, timeout=300)
+        lines = [l for l in p.stdout.splitlines() if l.startswith("{")]
+        _memo["out"] = json.loads(lines[-1]) if lines else dict(confirmed=False, note=p.stderr[-300:])
+    out = _memo["out"]
+    path = rep.write_replay(r.name, dict(obligation=r.to_json(), solver_output=r.model, confirmed=out.get("confirmed", False), replay=out))
+    return path, out.get("confirmed", False), out
 
 
 def run(tier, seed):
@@ -7,6 +27,7 @@ def run(tier, seed):
         "C15", tier, seed, level="proof",
         deductive=[("c15_ctx", None), ("c15_untracked", None)],
         bounded=[("state_bounded.py", ["--check", "C15"])],
+        replay=_replay,
         trusted=["Python: a `with` statement always calls __exit__, passing the exception if any, and re-raises unless __exit__ returns a true value (encoded in pyvc/interp.py x_With)",
                  "pyvc/heapdom.py dict encoding"],
         assumptions=[
